@@ -110,6 +110,8 @@ mod impls {
             emit_zero_counters: bool,
             units: impl FnOnce() -> HashMap<String, metrique_writer_core::Unit>,
         ) -> MetricAccumulatorEntry<Self> {
+            #[cfg(metrique_verif)]
+            metrique_writer_core::verif::point(20);
             let mut counters = Vec::new();
             let mut gauges = Vec::new();
             let mut histograms = Vec::new();
